@@ -208,6 +208,35 @@ def run(chk):
                    lambda d: '~'.join(annot.dump(x) for x in annot.undump(d).split()),
                    compare=cmp_, nontrivial_fn=lambda d, im: im.count('~') >= 1)
 
+    # text-exact: the module-level functions of sequence/combinatoric.py, string in, list of strings out, against the literal
+    # text-level model (model parser -> serialize start/pieces/end -> itertools -> model parser -> serialize)
+    fixed_strs = ['PET', '[3]-PET-[1]', 'PE[3.14]T', '<13C>PET', 'PEP+TIDE', 'PEP//TIDE', 'PE[', 'PEP[Phospho', '', 'P',
+                  '{Glycan:Hex}<13C><[Oxidation]@M>[1][2]^2?[Acetyl]-PE[3]T[1.0][Phospho]^2-[Amide]/2[+Na+]', 'PE(PT)[+1]IDE',
+                  '(?PE)PT[-1.5]^3', 'PEPT/-2', '[+1]-P', 'pep', 'PEP/0', 'P[Formula:[13C2]H4]E']
+    scases = []
+    for st in fixed_strs:
+        n = len([c for c in st if c.isupper()])
+        for k in [None, 0, 1, 2, 3, 4]:
+            for op in OPS:
+                if expected_count(op, min(n, 7), (n if k is None else k)) <= limit:
+                    scases.append((op, st, k))
+    for a in anns[:: (2 if tier == 'quick' else 1)]:
+        st = a.serialize()
+        n = len(a)
+        for k in [None, 0, 1, 2, n, n + 1]:
+            for op in OPS:
+                if expected_count(op, n, (n if k is None else k)) <= limit // 2:
+                    scases.append((op, st, k))
+
+    def s_impl(c):
+        op, st, k = c
+        try:
+            return 'S' + '~'.join(annot.esc(x) for x in getattr(pt, impl_fn(op))(st, k))
+        except Exception as e:  # noqa
+            return 'ERR:' + type(e).__name__
+    chk.correspond('combinatoric_py_text_exact', DRV, scases, lambda c: f's_{c[0]}\t{annot.esc(c[1])}\t{c[2]}', s_impl,
+                   nontrivial_fn=lambda c, im: im.count('~') >= 1)
+
     # the bare enumerations against the real itertools on integer lists (repeated elements included)
     its = []
     for n in range(0, 6 if tier == 'quick' else 8):
